@@ -250,6 +250,20 @@ def centred_cage(rng):
     return AM(zs, edges, mass, {}, "centred-cage:" + name)
 
 
+def perhalo_chain(rng):
+    """hydrogen-poor chains and rings of 100-130 skeleton atoms, every one carrying two halogens (PTFE-like): more than a hundred
+    atoms of one element with several bonds each, so that the tuples of the string pair small with three-digit numbers in many ways"""
+    n = rng.choice([110, 111, 118, 119, 126, 127, rng.randint(100, 130)])
+    skel, hal = rng.choice([(6, 9), (6, 17), (14, 17)])
+    ring = rng.random() < .3
+    zs = [skel] * n
+    edges = [(i, i + 1) for i in range(n - 1)] + ([(n - 1, 0)] if ring else [])
+    for i in range(n):
+        for _ in range(2 if ring or 0 < i < n - 1 else 3):
+            zs.append(hal); edges.append((i, len(zs) - 1))
+    return AM(zs, edges, {}, {}, "perhalo-chain")
+
+
 def tree_like(rng, n):
     zs = [rng.choice([6, 6, 6, 7, 8]) for _ in range(n)]
     edges = [(rng.randrange(i), i) for i in range(1, n)]
@@ -372,3 +386,5 @@ def standard_stream(rng, tier):
         yield hypercoordinate(rng)
     for _ in range(10 if quick else 60):
         yield centred_cage(rng)
+    for _ in range(3 if quick else 14):
+        yield perhalo_chain(rng)
